@@ -367,7 +367,7 @@ func runChild(c Case, res *Result) {
 					}
 					masks[p][s] = mk
 				}
-				if c.PaceUS > 0 && s%16 == 0 {
+				if c.PaceUS > 0 && s%c.PaceEvery == 0 {
 					time.Sleep(time.Duration(c.PaceUS) * time.Microsecond)
 				}
 				m := all[p][s]
